@@ -106,13 +106,12 @@ def averageLess (a b : Info) : Bool := a.cap > b.cap
 
 def averageOn (sorted : List Info) (need limit : Int) : Outcome Plan :=
   let n : Int := sorted.length
-  let limit := if limit = 0 then n else limit
+  let limit := if limit ≤ 0 then n else limit
   if n < limit then .err errInsufficient
   else
     let p : Int := GoSort.search sorted.length (fun i => (sorted.getD i default).cap < need)
     if p = 0 then .err errInsufficientCapacity
     else if p < limit then .err errInsufficient
-    else if limit < 0 then .panic "slice bounds out of range"
     else .ok ((sorted.take limit.toNat).foldl (fun d i => d.add i.name need) [])
 
 def average (infos : List Info) (need limit : Int) : Outcome Plan :=
